@@ -105,6 +105,37 @@ class Ctx(object):
             return True
         return False
 
+    def hang_guard(self, seconds, mechanism, witness):
+        """Context manager: if the guarded block does not finish within `seconds` (the code under test
+        loops for ever and swallows every exception, so it cannot be interrupted from inside), the
+        violation is recorded, what the shard has observed so far is written out and the shard exits."""
+        ctx = self
+
+        class Guard(object):
+            def __enter__(self_):
+                import threading
+
+                def fire():
+                    ctx.violation(mechanism, witness() if callable(witness) else witness)
+                    ctx.truncated = True
+                    ctx._extra = {"ok": True, "aborted_by_hang_guard": True}
+                    for _ in range(5):
+                        try:
+                            ctx._flush()
+                            break
+                        except RuntimeError:
+                            time.sleep(0.05)
+                    os._exit(0)
+                self_.t = threading.Timer(seconds, fire)
+                self_.t.daemon = True
+                self_.t.start()
+                return self_
+
+            def __exit__(self_, *a):
+                self_.t.cancel()
+                return False
+        return Guard()
+
     def violation(self, mechanism, witness, spec=None):
         """mechanism: short stable key naming *how* the property failed (used
         to match known findings); witness: JSON-able description."""
@@ -157,6 +188,31 @@ def _run_one(mod, spec, ctx, nontrivial):
         ctx.sample(spec)
 
 
+def write_result(ctx, out, reach_on, real):
+    from vpmon import reach
+    result = dict(getattr(ctx, "_extra", {}) or {})
+    result.update({
+        "evaluations": ctx.evaluations,
+        "hashes": sorted(ctx.hashes),
+        "counters": dict(ctx.counters),
+        "sets": dict((k, sorted(list(v), key=repr)[:5000]) for k, v in list(ctx.sets.items())),
+        "set_sizes": dict((k, len(v)) for k, v in list(ctx.sets.items())),
+        "samples": list(ctx.samples),
+        "violations": list(ctx.violations),
+        "viol_total": ctx.viol_total,
+        "mech_counts": dict(ctx.mech_counts),
+        "truncated": ctx.truncated,
+        "reach_on": reach_on,
+        "reach_hits": reach.hits(),
+        "wall_s": time.time() - ctx.t0,
+        "insights_from": real,
+    })
+    tmp = out + ".tmp"
+    with open(tmp, "w") as f:
+        f.write(jdump(result))
+    os.replace(tmp, out)
+
+
 def shard_main(argv):
     pid, tier, seed, shard, nshards, out = argv[0], argv[1], int(argv[2]), int(argv[3]), int(argv[4]), argv[5]
     replay = argv[6] if len(argv) > 6 else None
@@ -178,6 +234,7 @@ def shard_main(argv):
     import insights
     real = os.path.dirname(os.path.dirname(os.path.abspath(insights.__file__)))
     ctx = Ctx(pid, tier, seed, shard, nshards, plan)
+    ctx._flush = lambda: write_result(ctx, out, reach_on, real)
     result = {"ok": False}
     try:
         if os.path.realpath(real) != os.path.realpath(root):
@@ -198,24 +255,8 @@ def shard_main(argv):
         result["ok"] = True
     except Exception:
         result["error"] = traceback.format_exc()
-    result.update({
-        "evaluations": ctx.evaluations,
-        "hashes": sorted(ctx.hashes),
-        "counters": ctx.counters,
-        "sets": dict((k, sorted(v, key=repr)[:5000]) for k, v in ctx.sets.items()),
-        "set_sizes": dict((k, len(v)) for k, v in ctx.sets.items()),
-        "samples": ctx.samples,
-        "violations": ctx.violations,
-        "viol_total": ctx.viol_total,
-        "mech_counts": ctx.mech_counts,
-        "truncated": ctx.truncated,
-        "reach_on": reach_on,
-        "reach_hits": reach.hits(),
-        "wall_s": time.time() - ctx.t0,
-        "insights_from": real,
-    })
-    with open(out, "w") as f:
-        f.write(jdump(result))
+    ctx._extra = result
+    write_result(ctx, out, reach_on, real)
     return 0
 
 
